@@ -59,6 +59,18 @@ CHECKS["C17"] = {
     "note": TB + "; key order is Python's str order, handed to TLC as ranks",
 }
 
+CHECKS["C16"] = {
+    "text": "TLC enumerates every library of up to 3 (quick) / 4 (thorough) blocks over an 11-block universe (equal keys "
+            "across types, empty keys, both comment kinds, preamble, plain failed block, duplicate wrapper) x type orders "
+            "(a covering sample of 40 in quick, all 326 sub-permutations in thorough) x both comment modes, and proves that "
+            "the operational grouping+stable sort satisfies the relation SortOK (permutation, (rank,key) order, stability, "
+            "comment runs attached); every case is replayed on the real sorter and any output that is not identical to the "
+            "exported one is judged by TLC with SortOK; random libraries of up to 14 blocks with arbitrary keys are judged by "
+            "TLC as well; blocks unaltered and input unchanged are checked on every case.",
+    "ref": "6/C16", "technique": "TLA+ spec (SortBlocks.tla) + TLC bounded-exhaustive replay + TLC relation check on observed outputs",
+    "note": TB + "; key order is Python's str order, handed to TLC as ranks; trailing comment runs unconstrained",
+}
+
 NOT_APPLICABLE = {}
 for _e in ENGINES:
     _e["serves_properties"] = sorted(CHECKS)
